@@ -359,6 +359,33 @@ def _loader(repo, rep):
                   "spec = path" in t, "R16.3", site, "a candidate is "
                   "<directory>/<name> and the match becomes the file name",
                   construct="candidate", where=wh)
+    if ok:
+        # loop-carried state: a 'package:dir' entry sets package_name; a match
+        # found in a later plain directory must not inherit it -- every path
+        # of one iteration that ends the walk (break) has assigned
+        # package_name in that iteration
+        lp = loops[0]
+        stale = None
+        for p_ in P.enum_paths([lp], unroll=1):
+            its = [i for i, e in enumerate(p_) if e[0] == "assign" and
+                   isinstance(e[2], ast.Call) and src(e[2].func) == "<next>"]
+            if len(its) != 1:
+                continue
+            tail = p_[its[0] + 1:]
+            ended_by_break = not any(e[0] == "loop" and e[1] >= 1
+                                     for e in tail)
+            conds = [(src(e[1]), e[2]) for e in tail if e[0] == "cond"]
+            found_ = any("exists" in c_ and v for c_, v in conds)
+            if not (ended_by_break and found_):
+                continue
+            if not any(e[0] == "assign" and "package_name" in e[1]
+                       for e in tail):
+                stale = P.path_text(tail, 8)
+        rep.check(stale is None, "R16.3", site, "a match ends the walk with "
+                  "package_name set for *that* entry (a plain directory "
+                  "resets what an earlier package entry left behind)",
+                  construct="package-name-per-entry", where=wh,
+                  detail=stale or "")
     rep.check("spec = spec.strip()" in t, "R16.3", site, "surrounding "
               "whitespace of the name is ignored", construct="strip", where=wh)
     rep.check("package_name, spec = spec.split(':', 1)" in t, "R16.3", site,
